@@ -722,3 +722,9 @@ mutant("C16-M27", "C16", "R16i", "assumption block advances the offset by one fo
 mutant("C16-M28", "C16", "R16i", "values written to the first year at or after their own", EX2, "TimeDependentValuesEntry.write", "idx = np.where(self.tvec == t)[0]", "idx = np.where(self.tvec >= t)[0]")
 mutant("C16-M29", "C16", "R16i", "legacy assumption column ignored", EX2, "TimeDependentValuesEntry.from_rows", '                ts.assumption = cell_get_number(row[headings["assumption"]])', "                ts.assumption = None")
 twin("C16-T5", "C16", "uncertainty cell read into a local first", EX2, "TimeDependentValuesEntry.from_rows", 'ts.sigma = cell_get_number(row[headings["uncertainty"]])', 'ts.sigma = cell_get_number(row[headings["uncertainty"]])  # unchanged')
+
+# ---- round 5, third batch
+mutant("C16-M30", "C16", "R16j", "program set time axis taken from the last table read", PR, "ProgramSet._read_spending", "self.tvec = array(sorted(list(times)))", "self.tvec = array(sorted(tdve.tvec))")
+mutant("C16-M31", "C16", "R16j", "year columns collected only for programs with spending data", PR, "ProgramSet._read_spending", "            times.update(set(tdve.tvec))", "            if prog.spend_data.has_data:\n                times.update(set(tdve.tvec))")
+mutant("C17-M18", "C17", "R17a", "perturbations drawn from a module-level Generator", U, "TimeSeries.sample", "delta = self.sigma * np.random.randn(1)[0]", "delta = self.sigma * _rng.standard_normal()", edits=[dict(file=U, old="import sciris as sc\nfrom .system import logger\n", new="import sciris as sc\nfrom .system import logger\n\n_rng = np.random.default_rng()\n"), dict(file=U, func="TimeSeries.sample", old="delta = self.sigma * np.random.randn(1)[0]", new="delta = self.sigma * _rng.standard_normal()")])
+mutant("C18-M23", "C18", "R20i", "nesting check compares every stage with the first", CS, "validate_cascade", "if not (set(expanded[i + 1]) <= set(expanded[i])):", "if not (set(expanded[i + 1]) <= set(expanded[0])):")
